@@ -165,16 +165,23 @@ def check_c11(tier):
         replay_and_judge(res, work, "router-replay", path, name, 8, extra, pid)
     # the same schedules with time passing: a notification that meets live workers must still be applied when those
     # workers stay where they are for seconds (a loop that waits only for a grace period loses it)
-    picked = []
+    picked, chained = [], []
     for line in open(os.path.join(work, "small1.ndjson")):
         sc = json.loads(line)
         for i in range(len(sc) - 2):
             if sc[i][0] == "not" and sc[i + 1][0] == "take" and sc[i + 2][0] == "w":
-                picked.append(line)
+                # ... preferably followed, once the workers are gone, by another notification and then a request
+                rest = [st[0] for st in sc[i + 3:]]
+                if "not" in rest and "req" in rest[rest.index("not"):]:
+                    chained.append(line)
+                else:
+                    picked.append(line)
                 break
     rnd = __import__("random").Random(seed())
     rnd.shuffle(picked)
-    ndwell = 8 if tier == "quick" else 32
+    rnd.shuffle(chained)
+    ndwell = 12 if tier == "quick" else 48
+    picked = chained[:ndwell * 2 // 3] + picked
     dpath = os.path.join(work, "dwell.ndjson")
     with open(dpath, "w") as f:
         f.writelines(picked[:ndwell])
@@ -183,7 +190,7 @@ def check_c11(tier):
     replay_and_judge(res, work, "router-replay", dpath, "dwell", 8, ["--keys", "a", "--dwell-ms", "2500" if tier == "quick" else "8000"], pid)
     dwells = sum(open(os.path.join(work, "dwell.events.%d.ndjson" % i)).read().count('"ev":"Dwell"') for i in range(8))
     if dwells == 0:
-        raise ToolError("the dwell schedules never held a worker while a notification was pending")
+        raise ToolError("the dwell schedules never held a worker while a notification was taken")
     res.cov["dwell_schedules"] = min(ndwell, len(picked))
     res.cov["dwells"] = dwells
     total += min(ndwell, len(picked))
